@@ -6,12 +6,34 @@ import (
 
 // ObligScript renders the SMT-LIB script of an obligation.
 func ObligScript(o *Oblig, models bool) string {
-	hyps := append([]*smt.Term(nil), o.Hyps...)
+	return GroupScript([]*Oblig{o}, models)
+}
+
+// GroupScript renders one query for a chain of obligations whose path
+// conditions extend one another: hyps(first) and not AND_j (suffix_j => goal_j).
+func GroupScript(os []*Oblig, models bool) string {
+	first := os[0]
+	hyps := append([]*smt.Term(nil), first.HypList()...)
+	var goals []*smt.Term
+	for i, o := range os {
+		if o.Goal == nil {
+			continue
+		}
+		if i == 0 {
+			goals = append(goals, o.Goal)
+		} else {
+			goals = append(goals, smt.Implies(smt.And(o.Suffix(first)...), o.Goal))
+		}
+	}
+	var goal *smt.Term
+	if len(goals) > 0 {
+		goal = smt.And(goals...)
+	}
 	all := append([]*smt.Term(nil), hyps...)
-	if o.Goal != nil {
-		all = append(all, o.Goal)
+	if goal != nil {
+		all = append(all, goal)
 	}
 	hyps = append(constAxioms(all), hyps...)
-	q := &smt.Query{Hyps: hyps, Goal: o.Goal}
+	q := &smt.Query{Hyps: hyps, Goal: goal}
 	return q.Script(models)
 }
